@@ -59,6 +59,9 @@ def main():
         park("link", out=out)
         a2 = list(argv)
         a2[i + 1] = tmp
+        if fault == "link":
+            # the request named a library that does not exist: the failure is simulated half way (below)
+            a2 = [x for x in a2 if x != "-lffcxverif_missing"]
         rc = subprocess.call([REAL_CC, *a2])
         if rc != 0:
             post("link", "fail", rc=rc)
